@@ -8,7 +8,7 @@
  *   PLATFORM file.xml | CAT name | HVAR name | LVAR name | MARK type value | HSTATE state value
  *   ACTOR name hostidx start_date   followed by one op per line, closed by END
  *   ops: sleep d | exec flops cat | pexec flops bytes | send mbox bytes cat | dsend mbox bytes | recv mbox |
- *        sendt mbox bytes timeout | recvt mbox timeout | migrate hostidx | rmigrate actor hostidx | suspend actor | resume actor | kill actor |
+ *        sendt mbox bytes timeout | recvt mbox timeout | migrate hostidx | rmigrate actor hostidx | suspend actor | resume actor | fresume actor | kill actor |
  *        hvar set|add|sub var value | lvar set|add|sub linkidx var value | mark type value |
  *        hstate push|pop|set state value | vm create|start|suspend|resume|destroy name hostidx | yield
  */
@@ -20,6 +20,7 @@
 #include <cstdio>
 #include <fstream>
 #include <map>
+#include <set>
 #include <sstream>
 #include <string>
 #include <vector>
@@ -50,6 +51,7 @@ static sg4::Host* host_of(const std::string& s)
 static void run_ops(const ActorSpec& spec)
 {
   static char payload[8];
+  std::set<std::string> suspended_by_me;
   for (auto const& op : spec.ops) {
     auto const& w = op.w;
     try {
@@ -83,14 +85,19 @@ static void run_ops(const ActorSpec& spec)
         auto it = by_name.find(w[1]);
         if (it != by_name.end())
           it->second->set_host(host_of(w[2]));
-      } else if (w[0] == "suspend" || w[0] == "resume" || w[0] == "kill") {
+      } else if (w[0] == "suspend" || w[0] == "resume" || w[0] == "fresume" || w[0] == "kill") {
+        // "resume" only undoes a "suspend" of this actor that found its target; "fresume" resumes unconditionally
         auto it = by_name.find(w[1]);
+        if (w[0] == "suspend")
+          suspended_by_me.erase(w[1]);
         if (it != by_name.end()) {
-          if (w[0] == "suspend")
+          if (w[0] == "suspend") {
             it->second->suspend();
-          else if (w[0] == "resume")
+            suspended_by_me.insert(w[1]);
+          } else if (w[0] == "fresume" || (w[0] == "resume" && suspended_by_me.count(w[1]))) {
+            suspended_by_me.erase(w[1]);
             it->second->resume();
-          else
+          } else if (w[0] == "kill")
             it->second->kill();
         }
       } else if (w[0] == "hvar") {
